@@ -99,6 +99,15 @@ def _layout_tests(cond, root):
     return pos, neg, axes, other
 
 
+def _tuple_component(pat, idx):
+    """the idx-th component of a tuple pattern (the whole pattern when there is no index or it is not a tuple)"""
+    if idx is None or not isinstance(pat, dict):
+        return pat
+    if pat.get("k") in ("Tuple", "Tup") and len(pat.get("pats", [])) > idx:
+        return pat["pats"][idx]
+    return pat
+
+
 def _ndim(c, recv):
     t = c.ty(recv.get("at", recv.get("t"))) or ""
     for k in range(1, 7):
@@ -264,6 +273,7 @@ def sites(fn):
         escapes = False
         names = set()
         indexed = False
+        tup_idx = None
         for a in reversed(anc):
             k = a.get("k")
             if k in ("Ref", "Semi") or (k == "Unary" and a["op"] == "*") or (k == "Block" and not a["stmts"] and a.get("e") is child):
@@ -273,13 +283,18 @@ def sites(fn):
                 names.add(a["name"])
                 child = a
                 continue
+            if k == "Tup" and tup_idx is None and any(x is child for x in a.get("es", [])):
+                # `match (x.as_slice_memory_order(), y.as_slice_mut()) { (Some(a), Some(b)) => .. }`: follow the component
+                tup_idx = next(i for i, x in enumerate(a["es"]) if x is child)
+                child = a
+                continue
             if k in ("LetStmt", "Let") and a.get("init") is child:
-                for b in pat_bindings(a["pat"]):
+                for b in pat_bindings(_tuple_component(a["pat"], tup_idx)):
                     bound.add(b["local"])
                 break
             if k == "Match" and a["scrut"] is child:
                 for arm in a["arms"]:
-                    for b in pat_bindings(arm["pat"]):
+                    for b in pat_bindings(_tuple_component(arm["pat"], tup_idx)):
                         bound.add(b["local"])
                 break
             if k == "Index" and a["e"] is child:
